@@ -410,6 +410,9 @@ func (w *World) Apply(focus waddrmgr.KeyScope, op Op) *Result {
 			}
 			w.Imports = append(w.Imports, &Imported{Scope: focus, Kind: kind, Script: script, Secret: true, Addr: addr.EncodeAddress()})
 		}
+	case "invalidate_cache":
+		// drops the cached account info (the wallet does this after a dry-run account import)
+		sm.InvalidateAccountCache(acct)
 	case "restart":
 		res.Expect = "ok"
 		res.Err = w.Restart()
